@@ -6,12 +6,14 @@ func init() {
 	register(&Property{ID: "C24",
 		Jobs: func(tier string) []*Job {
 			return []*Job{f4Job("callgraph", "VerifCallGraph", 0, []string{"ran"}, []string{"C24-total", "C24-row"},
-				"method foo plus exactly one call site of each of 10 kinds (top-level statement, statement inside a method, inside a class method, call argument, inside a do-block, if / elsif / unless / while condition, assignment right-hand side), optionally preceded by an unrelated line; --llm-nav --target=foo must report `total callers: 1` and a caller entry naming the call's row; foo's return kind a solver variable")}
+				"method foo plus exactly one call site of each of 10 kinds (top-level statement, statement inside a method, inside a class method, call argument, inside a do-block, if / elsif / unless / while condition, assignment right-hand side), optionally preceded by an unrelated line; --llm-nav --target=foo must report `total callers: 1` and a caller entry naming the call's row; foo's return kind a solver variable; plus 6 shapes with several call sites of one method (total callers = number of call sites)"),
+				f4Job("namesakes", "VerifCallGraphNamesakes", 0, []string{"ran"}, []string{"C24-n-kb", "C24-n-other"},
+					"the name foo defined at top level, in class Ka and in class Kb (which also defines other), one call site each; --llm-nav with the target a method name defined three times, a class name, a method name defined once: one section per matching definition with its own call row, no section or call of a non-matching one")}
 		},
 		Custom:    replayCallGraph,
 		Filter:    func(v *Violation) bool { return strings.HasPrefix(v.ID, "C24") },
 		Stubs:     append(f4Stubs, "os.Args is set by the harness (cmd.getTarget reads it)"),
 		Functions: []string{"ti/eval/method_evaluator.NewMethodEvaluator", "(*ti/eval.IfUnless).getBackupContext", "ti/cmd.printLlmNavDetail", "ti/cmd.PrintLlmNav"},
-		Outside:   "several call sites at once, callee listing, --all",
+		Outside:   "callee listing, --all, inherited methods and union receivers",
 	})
 }
